@@ -20,6 +20,13 @@ use varpulis_cluster::raft::{ClusterCommand, NodeId, RaftNode, TypeConfig};
 use varpulis_cluster::{ClusterConnector, WorkerCapacity};
 use vh::*;
 
+/// Oracle self-test switch (`--perturb <name>`, never set by the driver): deliberately wrong
+/// expectations used to confirm that the monitor fires. Run with `--verif-dir <scratch>`.
+static PERTURB: std::sync::OnceLock<String> = std::sync::OnceLock::new();
+fn perturb(name: &str) -> bool {
+    PERTURB.get().map(|p| p == name).unwrap_or(false)
+}
+
 // ---------------------------------------------------------------------------------------------
 // canonical JSON
 // ---------------------------------------------------------------------------------------------
@@ -77,6 +84,7 @@ impl RefState {
                     w["assigned_pipelines"] = json!(assigned_pipelines);
                 }
             }
+            ClusterCommand::GroupUpdated { name, .. } if perturb("ref-ignores-group-update") && self.groups.contains_key(name) => {}
             ClusterCommand::GroupDeployed { name, group } | ClusterCommand::GroupUpdated { name, group } => {
                 self.groups.insert(name.clone(), group.clone());
             }
@@ -327,6 +335,20 @@ enum AnyStore {
     Rocks(RocksStore, SharedCoordinatorState, #[allow(dead_code)] tempfile::TempDir),
 }
 
+/// RocksDB directories: tmpfs when there is one (opening a store fsyncs several files), else the
+/// default temp dir. Removed when the guard drops.
+fn scratch_dir() -> std::io::Result<tempfile::TempDir> {
+    if std::path::Path::new("/dev/shm").is_dir() {
+        if let Ok(d) = tempfile::tempdir_in("/dev/shm") {
+            return Ok(d);
+        }
+    }
+    tempfile::tempdir()
+}
+
+static ROCKS_OPEN_US: std::sync::atomic::AtomicU64 = std::sync::atomic::AtomicU64::new(0);
+static ROCKS_OPENS: std::sync::atomic::AtomicU64 = std::sync::atomic::AtomicU64::new(0);
+
 fn io_err(e: StorageError<NodeId>) -> String {
     format!("{e}")
 }
@@ -339,8 +361,11 @@ impl AnyStore {
                 Ok(AnyStore::Mem(s, sh))
             }
             Kind::Rocks => {
-                let dir = tempfile::tempdir().map_err(|e| format!("tempdir: {e}"))?;
+                let dir = scratch_dir().map_err(|e| format!("tempdir: {e}"))?;
+                let t0 = std::time::Instant::now();
                 let (s, sh) = RocksStore::open_with_shared_state(dir.path().to_str().ok_or("non-utf8 tempdir")?)?;
+                ROCKS_OPEN_US.fetch_add(t0.elapsed().as_micros() as u64, std::sync::atomic::Ordering::Relaxed);
+                ROCKS_OPENS.fetch_add(1, std::sync::atomic::Ordering::Relaxed);
                 Ok(AnyStore::Rocks(s, sh, dir))
             }
         }
@@ -554,7 +579,10 @@ fn lane_snapshot(rt: &tokio::runtime::Runtime, kind: Kind, log: &GLog, i: usize,
         }
         pos += s;
     }
-    let got = b.state();
+    let mut got = b.state();
+    if perturb("snapshot-loses-models") {
+        got["models"] = json!({});
+    }
     out.add("state_comparisons", 1);
     if canon(&got) != full_replay {
         let comp = diff_component(&got, &log.ref_after[n - 1]);
@@ -599,7 +627,7 @@ impl StoreBuilder<TypeConfig, Adaptor<TypeConfig, MemStore>, Adaptor<TypeConfig,
 struct RocksBuilder;
 impl StoreBuilder<TypeConfig, Adaptor<TypeConfig, RocksStore>, Adaptor<TypeConfig, RocksStore>, tempfile::TempDir> for RocksBuilder {
     async fn build(&self) -> Result<(tempfile::TempDir, Adaptor<TypeConfig, RocksStore>, Adaptor<TypeConfig, RocksStore>), StorageError<NodeId>> {
-        let dir = tempfile::tempdir().map_err(|e| StorageError::IO { source: openraft::StorageIOError::write(&e) })?;
+        let dir = scratch_dir().map_err(|e| StorageError::IO { source: openraft::StorageIOError::write(&e) })?;
         let store = RocksStore::open(dir.path().to_str().unwrap_or("/nonexistent")).map_err(|e| StorageError::IO { source: openraft::StorageIOError::write(openraft::AnyError::error(e)) })?;
         let (l, s) = Adaptor::new(store);
         Ok((dir, l, s))
@@ -642,7 +670,6 @@ macro_rules! suite_tests {
         $(
             let b = $builder;
             handles.push((stringify!($name), std::thread::Builder::new().stack_size(16 << 20).spawn(move || {
-                install_thread_quiet();
                 run_suite_test(&b, |ls, sm| <$S>::$name(ls, sm))
             }).expect("spawn")));
         )*
@@ -668,8 +695,6 @@ macro_rules! suite_tests {
         failed
     }};
 }
-
-fn install_thread_quiet() {}
 
 macro_rules! all_suite_tests {
     ($S:ty, $builder:expr, $kind:expr, $out:expr) => {
@@ -741,6 +766,9 @@ fn main() {
     let args = Args::parse();
     install_quiet_panic_hook();
     watchdog("C35", args.pick(900, 7200));
+    if let Some(p) = args.opt("--perturb") {
+        let _ = PERTURB.set(p);
+    }
     let mut rep = Report::new("C35", "exploration", &args);
     rep.rule = "logs of 3-60 entries (terms non-decreasing; 90% commands uniformly over the 16 kinds with ids from {w0..2, g0..2, m0..2, c0..2, md0..1} so that overwrites, updates of missing keys and removals occur; 5% blank; 5% membership). Lane (i): 3 random batchings (all-singletons / one batch / small / arbitrary) per store kind, state compared with the reference after every batch and across batchings/stores at the end. Lane (ii): every snapshot index 1..n on MemStore, and a sample of indices (all in thorough) on RocksStore. Lane (iii): the 35 tests of openraft::testing::Suite::test_store, each on a fresh store. Non-trivial: a log with >=1 overwrite/removal of a key set earlier and >=3 entries (so that a snapshot index lies strictly inside); distinct by log.".into();
     rep.assume("reference fold: harness-side model of the 16 commands (insert/overwrite, update-if-present, remove, set) — independent of apply_command; its signatures are prefixed semantics/ so that they are distinguishable from batching/ and snapshot/ findings");
@@ -753,16 +781,22 @@ fn main() {
         .stack_size(32 << 20)
         .spawn(|| {
             let mut out = Partial::default();
+            let t0 = std::time::Instant::now();
             lane_suite(&mut out);
+            out.add("ms_suite_lane", t0.elapsed().as_millis() as u64);
             out
         })
         .expect("spawn suite");
 
-    let logs_per_thread = args.pick(6usize, 120usize);
+    // RocksStore::open costs ~0.25 s in this sandbox: in the quick tier only the first logs of a
+    // thread also go through RocksStore, all of them through MemStore.
+    let logs_per_thread = args.pick(24usize, 160usize);
+    let rocks_logs_per_thread = args.pick(3usize, 16usize);
     let thorough = args.thorough();
     let parts = parallel(threads, seed, move |_ti, mut rng| {
         let mut out = Partial::default();
         let rt = tokio::runtime::Builder::new_current_thread().enable_all().build().expect("rt");
+        let t_thread = std::time::Instant::now();
         for li in 0..logs_per_thread {
             let max_len = if li % 3 == 0 { 60 } else { 20 };
             let log = gen_log(&mut rng, max_len);
@@ -775,8 +809,10 @@ fn main() {
             // lane (i)
             let mut finals: Vec<(Kind, Vec<usize>, String)> = vec![];
             let mut ok = true;
-            for kind in [Kind::Mem, Kind::Rocks] {
-                let nb = if kind == Kind::Mem { 3 } else { 2 };
+            let with_rocks = li < rocks_logs_per_thread;
+            let kinds: &[Kind] = if with_rocks { &[Kind::Mem, Kind::Rocks] } else { &[Kind::Mem] };
+            for kind in kinds.iter().copied() {
+                let nb = if kind == Kind::Mem { 3 } else if thorough { 2 } else { 1 };
                 for _ in 0..nb {
                     let sizes = random_batching(&mut rng, n);
                     let r = catch(std::panic::AssertUnwindSafe(|| lane_batching(&rt, kind, &log, &sizes, &mut out)));
@@ -820,11 +856,13 @@ fn main() {
                     }
                 }
             }
-            let rocks_indices: Vec<usize> = if thorough || n <= 6 {
+            let rocks_indices: Vec<usize> = if !with_rocks {
+                vec![]
+            } else if thorough {
                 (1..=n).collect()
             } else {
-                let mut v = vec![1, n / 2, n - 1, n];
-                v.push(1 + rng.below(n));
+                let mut v = vec![1 + rng.below(n), n / 2, n - 1];
+                v.retain(|i| *i >= 1);
                 v.sort();
                 v.dedup();
                 v
@@ -841,11 +879,14 @@ fn main() {
                 }
             }
         }
+        out.add("ms_random_lanes_thread_sum", t_thread.elapsed().as_millis() as u64);
         out
     });
     for p in parts {
         rep.merge(p);
     }
+    rep.add("rocks_stores_opened", ROCKS_OPENS.load(std::sync::atomic::Ordering::Relaxed));
+    rep.add("ms_rocks_open_sum", ROCKS_OPEN_US.load(std::sync::atomic::Ordering::Relaxed) / 1000);
     match suite_handle.join() {
         Ok(p) => rep.merge(p),
         Err(_) => rep.inconclusive("conformance suite thread died"),
